@@ -70,8 +70,25 @@ def gen_nsec(rng, idx):
             "draws": [rng.choice([20, 21, 60]), rng.choice([60, 119, 120])] + [rng.choice([20, 60, 120]) for _ in range(6)]}
 
 
+def gen_superseded(rng, idx):
+    """a record of the service is queued, then update_service replaces it by one with other rdata, then the service is withdrawn:
+    the superseded record is covered by nobody (known finding D20)"""
+    h = rng.choice([HOSTS[0], HOSTS[1]])
+    svcs = [{"inst": "svc0", "type": rng.choice(TYPES), "server": h[0], "v4": list(h[1]), "v6": list(h[2]), "port": 80, "text": "03613d31",
+             "host_ttl": 120, "other_ttl": 4500, "weight": rng.choice([0, 5]), "priority": rng.choice([0, 3])}]
+    q = rng.choice([900, 1100, 1500]) + rng.randint(0, 30)
+    ops = [{"op": "register", "svc": 0, "at": 0},
+           {"op": "query", "at": q, "svc": 0, "kind": rng.choice(["srv", "txt+srv", "resolve", "any"]), "delay": 0},
+           {"op": "update", "svc": 0, "at": q + rng.choice([5, 10, 100]), "via": "copy",
+            "change": rng.choice([{"port": 81}, {"text": "03623d32"}, {"port": 81, "text": "03623d32"}, {"weight": 11, "priority": 13}])},
+           {"op": rng.choice(["unregister", "unregister", "unregister_all"]), "svc": 0, "at": q + rng.choice([110, 200, 400]), "via": rng.choice(["same", "copy"])}]
+    return {"idx": idx, "svcs": svcs, "ops": ops, "seed": rng.randrange(1 << 30), "delays": [0] * 60, "draws": [rng.choice([20, 60, 120]) for _ in range(6)]}
+
+
 def gen_scenario(rng, idx):
     r = rng.random()
+    if r > 0.95:
+        return gen_superseded(rng, idx)
     if r < 0.08:
         return gen_overlap(rng, idx)
     if r < 0.16:
@@ -81,7 +98,8 @@ def gen_scenario(rng, idx):
     for i in range(nsvc):
         h = rng.choice([HOSTS[0], HOSTS[1], HOSTS[3]]) if rng.random() < 0.8 else HOSTS[2]
         svcs.append({"inst": "svc%d" % i, "type": rng.choice(TYPES), "server": h[0], "v4": list(h[1]), "v6": list(h[2]) if rng.random() < 0.8 else [],
-                     "port": 80 + i, "text": rng.choice(["", "03613d31"]), "host_ttl": rng.choice([120, 120, 10, 4500]), "other_ttl": rng.choice([4500, 4500, 1125, 60])})
+                     "port": 80 + i, "text": rng.choice(["", "03613d31"]), "host_ttl": rng.choice([120, 120, 10, 4500]), "other_ttl": rng.choice([4500, 4500, 1125, 60]),
+                     "weight": rng.choice([0, 5, 7]), "priority": rng.choice([0, 3, 9])})
     ops = []
     # registrations: at the start (announcements complete by 800 ms) or late
     for i in range(nsvc):
@@ -118,7 +136,11 @@ def gen_scenario(rng, idx):
         if mode == "unregister":
             op["via"] = rng.choice(["same", "same", "same", "copy", "copy", "stale"])
         elif mode == "update":
-            op["via"] = rng.choice(["same", "same", "copy"])
+            op["via"] = rng.choice(["same", "copy", "copy"])
+            if op["via"] == "copy" and rng.random() < 0.6:
+                # the update changes the service (a new object with other fields, as an application rebuilding its ServiceInfo does)
+                op["change"] = rng.choice([{"port": 9000 + svc}, {"text": "03623d32"}, {"port": 9100 + svc, "text": "03623d32"},
+                                           {"host_ttl": 60, "other_ttl": 600}, {"weight": 11, "priority": 13}])
         ops.append(op)
     if rng.random() < 0.5:
         ops.append({"op": "close", "svc": 0, "at": horizon + rng.choice([0, 100, 700])})
@@ -285,20 +307,27 @@ def run_scenario(sc):
         infos = []
         first = []  # the handle each service was first registered with (stale once an update went through another object)
 
+        cur = [dict(s) for s in sc["svcs"]]  # the fields each service currently has (an update may change them)
+        changed = [False] * len(cur)
+
         def build(i):
-            s = sc["svcs"][i]
+            s = cur[i]
             return c09.make_info({"type": s["type"], "inst": s["inst"], "port": s["port"], "text": s["text"], "server": s["server"],
-                                  "host_ttl": s["host_ttl"], "other_ttl": s["other_ttl"], "v4": s["v4"], "v6": s["v6"]})
+                                  "host_ttl": s["host_ttl"], "other_ttl": s["other_ttl"], "v4": s["v4"], "v6": s["v6"],
+                                  "weight": s.get("weight", 0), "priority": s.get("priority", 0)})
 
         def handle(i, via):
             if via == "copy":
                 return build(i)
             if via == "stale":
-                return first[i] if first[i] is not infos[i] else build(i)
+                # the handle from before an update through another object; only while it still describes the service
+                # (unregistering through an object with outdated fields is the caller's error, not generated)
+                return first[i] if (first[i] is not infos[i] and not changed[i]) else build(i)
             return infos[i]
         for s in sc["svcs"]:
             infos.append(c09.make_info({"type": s["type"], "inst": s["inst"], "port": s["port"], "text": s["text"], "server": s["server"],
-                                        "host_ttl": s["host_ttl"], "other_ttl": s["other_ttl"], "v4": s["v4"], "v6": s["v6"]}))
+                                        "host_ttl": s["host_ttl"], "other_ttl": s["other_ttl"], "v4": s["v4"], "v6": s["v6"],
+                                        "weight": s.get("weight", 0), "priority": s.get("priority", 0)}))
         first.extend(infos)
         errors = []
         nq = [0]
@@ -326,6 +355,9 @@ def run_scenario(sc):
                 elif k == "unregister":
                     await za.async_unregister_service(handle(op["svc"], op.get("via", "same")))
                 elif k == "update":
+                    if op.get("change") and op.get("via") == "copy":
+                        cur[op["svc"]].update(op["change"])
+                        changed[op["svc"]] = True
                     h = handle(op["svc"], op.get("via", "same"))
                     await za.async_update_service(h)
                     infos[op["svc"]] = h
@@ -529,6 +561,8 @@ def oracle(sc, obs, res, case):
                         jj = j + 1
                         while jj < n and ev[jj][0] == "send":
                             dg.append(ev[jj][3])
+                            if ev[jj][4][0] != "224.0.0.251" or ev[jj][4][1] != 5353:
+                                viol.append(("C08:goodbye-not-multicast", "a goodbye datagram was sent to %r" % (ev[jj][4],)))
                             jj += 1
                         cands.append((j, (x[1], dg, jj - 1)))
                 # simultaneous unregister calls of one info: each datagram serves one call; take the one that fits this call
@@ -542,7 +576,12 @@ def oracle(sc, obs, res, case):
                 if pick is not None:
                     used_gb.add(pick[0])
                     gb.append(pick[1])
+            # async API only: `async_unregister_service` hands the goodbye task to the caller; an application that closes the instance
+            # without awaiting it cuts its own sequence (after `done` nothing is sent at all).  The synchronous wrapper, which gives
+            # the caller nothing to await, is judged without this allowance by `sync_oracle` (D19).
             cut = closed_at is not None or any(x[0] == "close" and x[1] <= t + 2 * GOODBYE for x in ev)
+            if cut:
+                res.count("goodbyes-cut-by-async-close-not-awaited")
             if not cut:
                 if [g[0] for g in gb] != [t, t + GOODBYE, t + 2 * GOODBYE]:
                     viol.append(("C08:goodbye-times", "goodbyes of %s at %r after unregister at %d" % (f["name"], [g[0] - t for g in gb], 0)))
@@ -561,8 +600,18 @@ def oracle(sc, obs, res, case):
                         extra = sorted(got - want)
                         viol.append(("C08:goodbye-content:%s" % ("missing-" + miss[0][0] if miss else "extra-" + extra[0][0]),
                                      "goodbye of %s: missing %r extra %r (host shared: %s)" % (f["name"], miss[:3], extra[:3], shared)))
+                    # the rdata of the goodbye copies is the rdata of the service being withdrawn
+                    for dgram in dg:
+                        for r in all_recs(dgram):
+                            if isinstance(r, d.DNSService) and r.name.lower() == f["name"].lower() and \
+                                    (r.priority, r.weight, r.port, r.server) != (f["priority"], f["weight"], f["port"], f["server"]):
+                                viol.append(("C08:goodbye-content:wrong-srv", "goodbye SRV of %s is (prio %d, weight %d, port %d, %s), the service has (%d, %d, %d, %s)"
+                                             % (f["name"], r.priority, r.weight, r.port, r.server, f["priority"], f["weight"], f["port"], f["server"])))
+                            if isinstance(r, d.DNSText) and r.name.lower() == f["name"].lower() and r.text.hex() != f["text"]:
+                                viol.append(("C08:goodbye-content:wrong-txt", "goodbye TXT of %s differs from the service's" % f["name"]))
             if len(gb) == 3:
-                obligations.append({"records": want, "from": gb[2][2], "until": None, "what": f["name"], "t3": gb[2][0]})
+                obligations.append({"records": want, "from": gb[2][2], "until": None, "what": f["name"], "t3": gb[2][0],
+                                    "gb_recs": [r for g in gb for dgram in g[1] for r in all_recs(dgram)]})
         elif k == "allgen" and e[3]:
             fs = list(reg.values())
             reg.clear()
@@ -594,7 +643,8 @@ def oracle(sc, obs, res, case):
                 if got != want:
                     viol.append(("C08:goodbye-all-content", "goodbye of all services: missing %r extra %r" % (sorted(want - got)[:3], sorted(got - want)[:3])))
             if len(gb) == 3:
-                obligations.append({"records": want, "from": gb[2][2], "until": None, "what": "all services", "t3": gb[2][0]})
+                obligations.append({"records": want, "from": gb[2][2], "until": None, "what": "all services", "t3": gb[2][0],
+                                    "gb_recs": [r for g in gb for dgram in g[1] for r in all_recs(dgram)]})
     # pass 2: after the third goodbye none of those records leaves with a non-zero TTL
     for ob in obligations:
         hi = ob["until"] if ob["until"] is not None else n
@@ -611,6 +661,10 @@ def oracle(sc, obs, res, case):
                             src = ev[jj][3][0]
                             break
                     sig = {"rdy": "C08:queued-answer-after-goodbye", "bcast": "C08:announcement-after-goodbye", "ans": "C08:answer-after-goodbye"}.get(src, "C08:record-after-goodbye")
+                    if src == "rdy" and not any(r == g for g in ob.get("gb_recs", [])):
+                        # KNOWN FINDING D20: same owner name and type as a withdrawn record but other rdata: the version that an
+                        # update_service superseded while it was queued; neither the update nor the unregister purges it
+                        sig = "C08:superseded-record-sent-after-goodbye"
                     viol.append((sig, "%s record of %s sent with TTL %d at +%d ms after the third goodbye (%s)" % (ident(r)[0], ob["what"], r.ttl, x[1] - ob["t3"], src)))
                     break
     seen = set()
@@ -670,6 +724,102 @@ def compare(res, pending, model):
                 break
 
 
+# ------------------------------------------------------------------------------------------
+# the synchronous API on real threads (the simulator cannot host them): `unregister_service(info)` then `close()`
+
+SYNC_FAST = 40  # ms standing for the 125 ms between goodbyes (all protocol timers of _core shortened alike)
+SYNC_GAPS = [0, 50, 124, 126, 260]  # ms (unscaled) between the return of unregister_service and the call of close
+
+
+def sync_case(gap_ms, n_services, shared):
+    """thread-backed instance (no running loop in the calling thread), recording transports on the real loop
+    (harness/c17_threads.Rig).  Returns the observation: how many goodbye datagrams (TTL-0 PTR, SRV, TXT of the service,
+    + addresses unless the host is shared) were multicast for the unregistered service."""
+    import socket
+    import time
+
+    from . import c17_threads as T
+    from zeroconf import DNSIncoming, ServiceInfo, Zeroconf
+
+    typ = "_sync._tcp.local."
+    obs = {}
+    with T.Rig(fast=SYNC_FAST) as rig:
+        zc = Zeroconf(interfaces=["10.0.0.1"])
+        try:
+            infos = [ServiceInfo(typ, "s%d.%s" % (i, typ), 80 + i, addresses=[socket.inet_aton("10.0.0.1")],
+                                 server="hs.local." if (shared or i == 0) else "hs%d.local." % i) for i in range(n_services)]
+            for info in infos:
+                zc.register_service(info, cooperating_responders=True)
+            n0 = len(rig.log)
+            t_call = time.monotonic()
+            zc.unregister_service(infos[0])
+            t_ret = time.monotonic()
+            gap = gap_ms * SYNC_FAST / 125.0 / 1000.0
+            if gap:
+                time.sleep(gap)
+            t_close = time.monotonic()
+            zc.close()
+            t_closed = time.monotonic()
+            time.sleep(4 * SYNC_FAST / 1000.0)
+            name = infos[0].name
+            goodbyes = []
+            late_positive = []
+            for (t, kind, data, addr) in rig.log[n0:]:
+                if kind != "sent":
+                    continue
+                m = DNSIncoming(data)
+                if not m.valid or m.is_query():
+                    continue
+                recs = list(m.answers())
+                mine = [r for r in recs if r.name == name or getattr(r, "alias", None) == name]
+                if mine and all(int(r.ttl) == 0 for r in mine):
+                    kinds = sorted({type(r).__name__ for r in mine})
+                    goodbyes.append([round((t - t_call) * 1000), kinds, addr[0] if addr else None])
+                elif mine and goodbyes:
+                    late_positive.append(round((t - t_call) * 1000))
+            obs = {"unregister_returned_ms": round((t_ret - t_call) * 1000), "close_called_ms": round((t_close - t_call) * 1000),
+                   "close_returned_ms": round((t_closed - t_call) * 1000), "goodbyes": goodbyes, "positive_after_goodbye": late_positive}
+        finally:
+            if not zc.done:
+                try:
+                    zc.close()
+                except Exception:  # noqa: BLE001
+                    pass
+    return obs
+
+
+def sync_oracle(case, obs, res):
+    """the English sentence on the synchronous API: the goodbye copies are multicast three times, whenever close() follows"""
+    res.evaluations += 1
+    res.count("sync:gap=%d" % case["gap_ms"])
+    gb = obs["goodbyes"]
+    full = [g for g in gb if {"DNSPointer", "DNSService", "DNSText"} <= set(g[1]) and g[2] == "224.0.0.251"]
+    if len(full) < 3:
+        res.violate("C08:sync-unregister-returns-before-goodbyes",
+                    "unregister_service(info) returned after %d ms (before its goodbye sequence); close() called %d ms later: only %d of the 3 goodbye datagrams "
+                    "were multicast (at %r ms; the protocol interval is scaled to %d ms)"
+                    % (obs["unregister_returned_ms"], obs["close_called_ms"] - obs["unregister_returned_ms"], len(full), [g[0] for g in gb], SYNC_FAST),
+                    dict(case, observed=obs))
+    if obs["positive_after_goodbye"]:
+        res.violate("C08:sync-record-after-goodbye", "a record of the unregistered service left with a non-zero TTL after a goodbye (sync API)", dict(case, observed=obs))
+    if len(full) >= 3:
+        res.nontriv(("sync", case["gap_ms"], case["n_services"], case["shared"]))
+
+
+def run_sync(res, seed):
+    # one service (close() finds the registry empty and sets `done` at once) at every gap; two services (close() spends 250 ms
+    # on the other service's goodbyes, during which the first sequence can finish) at two gaps
+    cases = [{"stream": "sync", "gap_ms": gap, "n_services": 1, "shared": False} for gap in SYNC_GAPS]
+    cases += [{"stream": "sync", "gap_ms": SYNC_GAPS[(seed + k) % len(SYNC_GAPS)], "n_services": 2, "shared": bool((seed + k) % 2)} for k in range(2)]
+    for case in cases:
+        try:
+            obs = sync_case(case["gap_ms"], case["n_services"], case["shared"])
+        except Exception as ex:  # noqa: BLE001
+            res.notes.append("sync case %r could not run: %r" % (case, ex))
+            continue
+        sync_oracle(case, obs, res)
+
+
 def run(ctx):
     res = C.Result("C08")
     rng = C.rng_for(ctx["seed"], "c08")
@@ -681,8 +831,13 @@ def run(ctx):
                 "{-200..1300 ms} around the queries and the queue deadlines; non-trivial = distinct (withdrawals with answers queued, block kinds, trace length)")
     lines, pending = [], []
     for name, body in C.load_corpus("C08"):
-        evaluate(body["scenario"] if "scenario" in body else body, res, lines, pending)
+        if body.get("stream") == "sync" or ("case" in body and body["case"].get("stream") == "sync"):
+            case = body.get("case", body)
+            sync_oracle(case, sync_case(case["gap_ms"], case["n_services"], case["shared"]), res)
+        else:
+            evaluate(body["scenario"] if "scenario" in body else body, res, lines, pending)
         res.count("corpus")
+    run_sync(res, ctx["seed"])
     for i in range(n):
         evaluate(gen_scenario(rng, i), res, lines, pending)
     if ctx["driver_ok"]:
@@ -695,6 +850,12 @@ def run(ctx):
 
 
 def replay(body):
+    case = body.get("case", body)
+    if case.get("stream") == "sync":
+        res = C.Result("C08")
+        obs = sync_case(case["gap_ms"], case["n_services"], case["shared"])
+        sync_oracle(case, obs, res)
+        return {"violates": bool(res.violations), "violations": [(v["sig"], v["what"]) for v in res.violations], "observed": obs}
     sc = body["case"]["scenario"] if "case" in body else body["scenario"]
     res = C.Result("C08")
     lines, pending = [], []
